@@ -178,3 +178,70 @@ fn k_partial_hash_ascii3() {
     assert!(h2 == h, "case-insensitive");
     kani::cover!(true, "reachable");
 }
+
+// Recorder standing in for Jamcrc::checksum (its own contract - checksum(bytes) = JAMCRC(bytes), a function of the bytes only -
+// is the Verus unit `jamcrc`): remembers what it was asked to hash and answers with a value that identifies the call.
+static mut HASHED: [[u8; 6]; 2] = [[0; 6]; 2];
+static mut HASHED_LEN: [usize; 2] = [0; 2];
+static mut NHASHED: usize = 0;
+fn record_checksum(_s: &Jamcrc, bytes: &[u8]) -> u32 {
+    unsafe {
+        let k = NHASHED;
+        if k < 2 {
+            HASHED_LEN[k] = bytes.len();
+            let mut i = 0;
+            while i < bytes.len() && i < 6 { HASHED[k][i] = bytes[i]; i += 1; }
+        }
+        NHASHED += 1;
+        0x1000 + k as u32
+    }
+}
+fn ascii_letterish(c: u8) -> bool { c < 128 && c != b'/' && c >= 0x20 }
+
+//@unit props=C01,C12 label=B tier=quick fn=sqpack::index::SqPackIndex::calculate_hash bound="Index2; ASCII paths of exactly 5 bytes 'ab/cd' with symbolic letters; checksum replaced by a recorder, to_lowercase by an ASCII model" stubs=Jamcrc::checksum,to_lowercase
+//@desc for a full-path index the one hash is taken over the lower-cased bytes of the whole path (so the answer ignores letter case)
+#[kani::proof]
+#[kani::unwind(8)]
+#[kani::stub(str::to_lowercase, ascii_lower_model)]
+#[kani::stub(crate::crc::Jamcrc::checksum, record_checksum)]
+fn k_calculate_hash_index2() {
+    let c: [u8; 4] = kani::any();
+    kani::assume(ascii_letterish(c[0]) && ascii_letterish(c[1]) && ascii_letterish(c[2]) && ascii_letterish(c[3]));
+    let p = [c[0], c[1], b'/', c[2], c[3]];
+    let idx = mk_index(IndexType::Index2, Vec::new());
+    unsafe { NHASHED = 0; }
+    let h = idx.calculate_hash(unsafe { std::str::from_utf8_unchecked(&p) });
+    unsafe {
+        assert!(NHASHED == 1 && h == Hash::FullPath(0x1000), "one hash over the whole path");
+        assert!(HASHED_LEN[0] == 5, "whole path hashed");
+        let i: usize = kani::any();
+        kani::assume(i < 5);
+        assert!(HASHED[0][i] == p[i].to_ascii_lowercase(), "lower-cased bytes are hashed");
+    }
+    kani::cover!(true, "reachable");
+    core::mem::forget(idx);
+}
+
+//@unit props=C01,C12 label=B tier=thorough fn=sqpack::index::SqPackIndex::calculate_hash bound="Index1; ASCII paths of exactly 5 bytes 'ab/cd' with symbolic letters; checksum replaced by a recorder, to_lowercase by an ASCII model" stubs=Jamcrc::checksum,to_lowercase
+//@desc for a split index the path hash is taken over the lower-cased directory part (before the last '/') and the name hash over the lower-cased file part (after it)
+#[kani::proof]
+#[kani::unwind(8)]
+#[kani::stub(str::to_lowercase, ascii_lower_model)]
+#[kani::stub(crate::crc::Jamcrc::checksum, record_checksum)]
+fn k_calculate_hash_index1() {
+    let c: [u8; 4] = kani::any();
+    kani::assume(ascii_letterish(c[0]) && ascii_letterish(c[1]) && ascii_letterish(c[2]) && ascii_letterish(c[3]));
+    let p = [c[0], c[1], b'/', c[2], c[3]];
+    let idx = mk_index(IndexType::Index1, Vec::new());
+    unsafe { NHASHED = 0; }
+    let h = idx.calculate_hash(unsafe { std::str::from_utf8_unchecked(&p) });
+    unsafe {
+        assert!(NHASHED == 2, "two hashes: directory and file name");
+        // call 0 = directory, call 1 = file name (order of evaluation in the code); the result pairs them as (name, path)
+        assert!(h == Hash::SplitPath { name: 0x1001, path: 0x1000 }, "name hash from the file part, path hash from the directory part");
+        assert!(HASHED_LEN[0] == 2 && HASHED[0][0] == c[0].to_ascii_lowercase() && HASHED[0][1] == c[1].to_ascii_lowercase(), "directory part, lower-cased, without the separator");
+        assert!(HASHED_LEN[1] == 2 && HASHED[1][0] == c[2].to_ascii_lowercase() && HASHED[1][1] == c[3].to_ascii_lowercase(), "file part, lower-cased, without the separator");
+    }
+    kani::cover!(true, "reachable");
+    core::mem::forget(idx);
+}
